@@ -451,7 +451,7 @@ func (v *View) checkC08(res *Result) {
 	held := map[string]int{}
 	heldAt := make([]map[string]bool, len(v.Ev))
 	for idx, e := range v.Ev {
-		if e.Op == "yield:promoteGoroutineEntry" {
+		if e.Op == "yield:promoteGoroutineEntry" || e.Op == "yield:demoteGoroutineEntry" {
 			switch e.Kind {
 			case "break.hit":
 				np++
@@ -493,6 +493,20 @@ func (v *View) checkC08(res *Result) {
 					for _, a := range v.APIs {
 						if lt != nil && a.Inst == e.Inst && a.API == "StopWithContext" && a.Call < lt.Down && (a.Ret < 0 || a.Ret > lt.Down) && strings.Contains(a.Desc, "wait=false") {
 							why = "stop-nowait"
+						}
+					}
+				}
+				if why == "stop-nowait" {
+					// was the detached demotion goroutine held by the harness BEFORE it signalled its
+					// start? Then the recorded residual window (between that signal and the call
+					// into the callback) has nothing to do with it.
+					for j := idx - 1; j >= 0 && j > idx-2000; j-- {
+						if v.Ev[j].Kind == "break.hit" && v.Ev[j].Op == "yield:demoteGoroutineEntry" {
+							why += ":demote-goroutine-held-before-its-start-signal"
+							break
+						}
+						if v.Ev[j].Kind == "cb.demote" && v.Ev[j].Inst == e.Inst {
+							break
 						}
 					}
 				}
